@@ -233,7 +233,11 @@ impl Expr {
         match self {
             Expr::Value(val) => val.for_type(flags),
             Expr::BinOp { lhs, op, rhs } => {
-                if let (Op::Unwrap, Expr::Value(Value::Ident(ident))) = (op, lhs.as_ref()) {
+                if let Op::Unwrap = op {
+                    let Expr::Value(Value::Ident(ident)) = lhs.as_ref() else {
+                        bail!("the left side of ?= must be the name of a variable")
+                    };
+
                     if ident.is_const() {
                         bail!("cannot store into {} using ?=, because it is const", ident.name())
                     }
